@@ -197,6 +197,17 @@ func (s *Set[T]) Producer() (out fun.Producer[T]) {
 		return s.list.Producer()
 	}
 
+	if s.mtx.Get() != nil {
+		// the key iterator of a map ranges over it from its own
+		// goroutine, outside of the lock: a synchronized set
+		// iterates over a copy of its keys instead.
+		keys := make([]T, 0, len(s.hash))
+		for key := range s.hash {
+			keys = append(keys, key)
+		}
+		return fun.SliceIterator(keys).Producer()
+	}
+
 	return s.hash.ProducerKeys()
 }
 
